@@ -1,12 +1,17 @@
 """C11 -- combine1fiber resamples spectra: finite flux, conservative inverse variance."""
 import math
+import os
 
 from harness import common as C
+from translate import c11 as T
 
 ID = 'C11'
 PROPS_V = 'C11/Props.v'
 LEVEL = 'proof'
 TRUSTED = [
+    'translate/c11.py: ast extraction of the threshold/index arithmetic of combine1fiber (EPS, default factors, grouping '
+    'comparison and slice, minimum group size, inside bounds, smask threshold, bad-region test, growth offsets) into '
+    'coq/Generated/Combine1fiber.v; Props.v proves the hand-written model uses exactly these (C11_generated_*)',
     'hand-written model coq/C11/Model.v (grouping, per-group evaluation/newmask, np.interp inverse-variance path with the '
     '1-EPS mask test, running-median weights for stacks, +-2 growth, aesthetics from C17.Model) on top of coq/BSpline -- tied '
     'to combine1fiber by the correspondence run only',
@@ -30,6 +35,17 @@ ASSUMPTIONS = [
     'data; that the C10 model fit does so is proved for the certified solver (C11/Proofs.v), requiren is modelled only through '
     'the recorded breakpoint mask',
 ]
+
+def translate(ctx):
+    text, info = T.generate(C.REPO)
+    path = os.path.join(C.COQ, 'Generated', 'Combine1fiber.v')
+    if text is not None:
+        info['changed'] = C.write_if_changed(path, text)
+    else:
+        info['note'] = ('source shape not recognised; the previous Generated/Combine1fiber.v is kept and the correspondence '
+                        'run alone ties model to code')
+    return {'Combine1fiber': info}
+
 
 HEADER = '''From Coq Require Import QArith ZArith List. Import ListNotations.
 From PV Require Import BSpline.Eval C11.Model. Open Scope Q_scope.'''
@@ -210,6 +226,9 @@ def case_term(c, r):
     cin = '(mkCin %s %s %s %s %d%%nat %s %s 3%%nat %s %s)' % (
         ql(inl), ql(flat(c['flux'])), 'None' if iv is None else '(Some %s)' % ql(iv), nl(specnum), nspec,
         ql(c['newloglam']), C.qlit(r['maxsep']), METHODS[c['kwargs']['aesthetics']], nl(r['isort']))
+    if 'pre_ivar' in r and 'pre_flux' in r:
+        return '(CStage %s %s %s %s %s %s %s)' % (cin, C.coq_list([fit_term(f) for f in r['fits']]), bl(r['fullcomb']),
+                                                 ql(r['pre_flux']), ql(r['pre_ivar']), ql(r['newflux']), ql(r['newivar']))
     return '(CComb %s %s %s %s %s)' % (cin, C.coq_list([fit_term(f) for f in r['fits']]), bl(r['fullcomb']),
                                        ql(r['newflux']), ql(r['newivar']))
 
@@ -373,7 +392,7 @@ def correspond(ctx, proof_ok=True):
             viol(sig, 'output contradicts the specification (lengths / ivar >= 0 / zero pattern / interpolation law): %s grid, %s' % (
                 c['variant'], variant_of(c)), c, r,
                 extra={'verdict': v, 'diagnose': diag,
-                       'meaning': 'diagnose = [fullcombmask; ivar zero pattern vs model; ivar values; flux; spec_basic; spec_zero_pattern; spec_interp_law]'})
+                       'meaning': 'diagnose = [fullcombmask; ivar zero pattern vs model; ivar values; flux; spec_basic; spec_zero_pattern; spec_interp_law; stages (pre-growth ivar, pre-aesthetics flux)]'})
         else:
             viol(sig, 'model and implementation disagree (%s grid, %s, aesthetics=%s)' % (c['variant'], variant_of(c), c['kwargs']['aesthetics']),
                  c, r, failing=False, extra={'verdict': v, 'diagnose': diag})
